@@ -1,5 +1,5 @@
 (* C09 -- Block1: uploaded blocks are reassembled into exactly the body sent. *)
-From CoapV Require Import Base Header Packet UintOpt BlockValue Encode Response Accessors BlockHandler proofs.P11 proofs.P08b proofs.P09b.
+From CoapV Require Import Base Header Packet UintOpt BlockValue Encode Response Accessors BlockHandler proofs.P11 proofs.P08b proofs.P09b proofs.P09c.
 
 (* whatever an abandoned upload left in the buffer: once the buffer agrees with the body up to a block's offset,
    splicing that (full) block in makes it agree up to the next offset -- so blocks delivered in order, each
@@ -69,9 +69,40 @@ Theorem C09_upload_run : forall M szx body reqs st outs st',
 Proof. exact upload_run_from_scratch. Qed.
 Print Assumptions C09_upload_run.
 
+(* ... and with every non-final block delivered any number of times in a row (the property's duplicate deliveries) *)
+Theorem C09_upload_with_repeats : forall M szx body reqs st outs st', let sz := 2 ^ (szx + 4) in
+  deliveries sz szx body 0 reqs -> run_block1 M st reqs = (outs, st') -> Forall (fun x => exists b, fst x = Ok b) outs ->
+  exists front lastreq, outs = front ++ [(Ok false, lastreq)] /\ Forall (fun x => fst x = Ok true) front /\
+    payload (message lastreq) = body /\ cached_payload st' = None.
+Proof. exact upload_with_repeats_from_scratch. Qed.
+Print Assumptions C09_upload_with_repeats.
+
 (* known finding KF_dup_final (D11): after the final block has been handed over the buffer is gone, so a second
    delivery of the final block makes up a zero-filled body and reaches the application again *)
 Theorem C09_KF_dup_final_refuted :
   exists buf pl off, extending_splice [] off (off + 16) pl = Some buf /\ off = 16 /\ take 16 buf = repeat 0 16.
 Proof. exists (repeat 0 16 ++ [1; 2; 3]), [1; 2; 3], 16. vm_compute. repeat split; reflexivity. Qed.
 Print Assumptions C09_KF_dup_final_refuted.
+
+(* non-vacuity of C09_upload_with_repeats: 40 bytes in 16-byte blocks, block 0 delivered twice, onto a stale buffer *)
+Definition ex_block1_req (k : N) (more : bool) (chunk : bytes) : request :=
+  mkRequest (add_option (set_payload packet_new chunk) OPT_BLOCK1
+               (match block_encode (mkBlock k more 0) with Ok v => v | _ => [] end))
+            (Some packet_new) (Some 1).
+Example C09_repeats_example :
+  let body := map N.of_nat (seq 1 40) in
+  let reqs := [ex_block1_req 0 true (take 16 body); ex_block1_req 0 true (take 16 body);
+               ex_block1_req 1 true (take 16 (drop 16 body)); ex_block1_req 2 false (drop 32 body)] in
+  let stale := mkBState None None (Some (repeat 9 100)) in
+  deliveries 16 0 body 0 reqs /\
+  (let '(outs, st') := run_block1 1152 stale reqs in
+   map fst outs = [Ok true; Ok true; Ok true; Ok false] /\
+   map (fun x => payload (message (snd x))) (skipn 3 outs) = [body] /\ cached_payload st' = None).
+Proof.
+  cbv zeta. split.
+  - apply del_again; [split; vm_compute; reflexivity|vm_compute; reflexivity|].
+    apply del_next; [split; vm_compute; reflexivity|vm_compute; reflexivity|].
+    apply del_next; [split; vm_compute; reflexivity|vm_compute; reflexivity|].
+    apply del_final; [split; vm_compute; reflexivity|vm_compute; discriminate].
+  - vm_compute. repeat split; reflexivity.
+Qed.
